@@ -51,7 +51,7 @@ META["C14"] = {
 }
 ENGINES.append({"name": "drain-replay", "path": "tools/draincheck.py", "serves_properties": ["C14"],
                 "kind_free_text": "TLC model check + simulation of spec/Drain.tla; schedules replayed by harness/kit (gate scheduler over verifhook points) in harness/otter/verif_drain_test.go"})
-HOOK_COMMITS.extend(["3f17fd0", "90d5fc6", "7f02039"])
+HOOK_COMMITS.extend(["3f17fd0", "90d5fc6", "7f02039", "92eaa79", "583b2ee"])
 
 _WR_TEXT = {
     "C04": "after quiescence and one maintenance run the weight of the entries present is within the maximum, nothing heavier than the maximum is retained, zero-weight entries are never evicted (WriteReplay.tla: Bound; real cache: WRAudit.tla over the audit record); Policy.tla: Bound / MaximaOK with the real policy replayed on it (PolicyTrace.tla); a read that extends a deadline while the expiration sweep runs (SweepHist.tla)",
